@@ -254,7 +254,13 @@ pub fn layered_label_propagation_labels_only<
     // init the iteration progress logger
     let mut iter_pl = progress_logger![item_name = "update"];
 
-    let hash_map_init = Ord::max(sym_graph.num_arcs() / sym_graph.num_nodes() as u64, 16) as usize;
+    let hash_map_init = Ord::max(
+        sym_graph
+            .num_arcs()
+            .checked_div(sym_graph.num_nodes() as u64)
+            .unwrap_or(0),
+        16,
+    ) as usize;
 
     // init the update progress logger
     let mut update_pl = concurrent_progress_logger![item_name = "node", local_speed = true];
